@@ -127,7 +127,13 @@ def run_history(req):
                 if slot in present or slot not in removed:
                     continue
                 name, m, kind = removed.pop(slot)
-                if op[2] == "new" and m is not None:
+                if op[2] == "newglue" and kind in ("none", "nonemod"):
+                    # the name belonged to a module without glue (or to a None entry) that has been scanned or not; the
+                    # module object that now appears under the same name does have glue
+                    kind = "mod"
+                    m = new_module(name, kind)
+                    stats["glue_bearing_module_under_a_glueless_name"] = stats.get("glue_bearing_module_under_a_glueless_name", 0) + 1
+                elif op[2] in ("new", "newglue") and m is not None:
                     m = new_module(name, kind)
                 sys.modules[name] = m
                 present[slot] = (name, m, kind)
